@@ -81,7 +81,8 @@ def r_depends(c):
                     continue
                 n_sites += 1
                 empty = ast.unparse(dep) in ("frozenset()", "frozenset([])", "frozenset(())")
-                is_input = fd.name in ("map_placeholder", "map_size_param")
+                from pta.rules.common import only_called_from
+                is_input = only_called_from(m, fd, ("map_placeholder", "map_size_param"))
                 c.check((not empty) or is_input, "R07-DEPENDS",
                         m.qualname(fd).replace("pytato.", "", 1),
                         f"{ast.unparse(call.func)}:depends_on={m.frag(dep, 30)}",
